@@ -178,6 +178,27 @@ func TestVerifReaderTrace(t *testing.T) {
 	w := bufio.NewWriter(fo)
 	defer w.Flush()
 	enc := json.NewEncoder(w)
+	// one buffer longer than 65535 octets, read across the 16-bit boundary: the accounting holds there too
+	{
+		buf := make([]byte, 66000)
+		for i := range buf {
+			buf[i] = byte((i*7 + i/251) % 256)
+		}
+		enc.Encode(map[string]interface{}{"op": "new", "buf": vInts(buf)})
+		r := NewReader(buf)
+		step := func(op string, n int) {
+			res := vApply(r, op, n)
+			res.Same = true
+			enc.Encode(res)
+		}
+		for k := 0; k < 68; k++ {
+			step("read", 960)
+		}
+		for _, x := range [][2]interface{}{{"uint", 8}, {"read", 240}, {"uint", 4}, {"uint", 2}, {"uint", 1}, {"obs", 0}, {"uint", 1}, {"obs", 0},
+			{"uint", 2}, {"peek", 4}, {"peek16", 2}, {"read", 100}, {"uint", 8}, {"read", 400}, {"obs", 0}, {"read", 1}, {"uint", 1}} {
+			step(x[0].(string), x[1].(int))
+		}
+	}
 	ops := []string{"uint", "uint", "uint", "uint", "read", "read", "peek", "peek16", "obs"}
 	for tr := 0; tr < ntr; tr++ {
 		L := rng.Intn(48)
